@@ -81,6 +81,8 @@ def enumerate_cases(tier: str):
                 yield {"version": version, "parked": 2, "other_parked": 1, "senders": senders, "keys": "collide"}
                 yield {"version": version, "parked": 2, "other_parked": 0, "senders": senders, "prior": True}
             yield {"version": version, "parked": 3, "other_parked": 1, "senders": [[2, True], [0, True]], "keys": "collide", "prior": True}
+            for senders in ([[0, True, "reuse"]], [[1, True, "reuse"]], [[0, True, "reuse"], [1, True]], [[3, True, "reuse"]]):
+                yield {"version": version, "parked": 2, "other_parked": 0, "senders": senders, "prior": True}
             for senders in ([[0, True, "ack"]], [[1, True, "ack"]], [[1, True, "ack"], [0, True]], [[1, True], [1, True, "ack"]], [[2, True, "ack"], [1, False, "ack"]]):
                 yield {"version": version, "parked": 3, "other_parked": 0, "senders": senders}
             for senders in ([[0, True]], [[1, True]], [[1, True], [0, True]], [[3, True], [1, False]]):
@@ -100,7 +102,7 @@ def enumerate_cases(tier: str):
 
 
 def strategy(tier: str):
-    sender = st.tuples(st.sampled_from((0, 1, 2, 3, "other")), st.booleans(), st.sampled_from(("new", "new", "dup", "req", "ack"))).map(list)
+    sender = st.tuples(st.sampled_from((0, 1, 2, 3, "other")), st.booleans(), st.sampled_from(("new", "new", "dup", "req", "ack", "reuse"))).map(list)
     return st.fixed_dictionaries(
         {
             "version": st.sampled_from(("2.0", "2.1", "2.2")),
@@ -181,14 +183,19 @@ async def _run_schedule(case: dict, schedule: list[int]) -> tuple[Outcome | None
 
     req_lines: list[str] = []
 
-    async def do_send(key, value, buffer, ack: int = 0) -> tuple[str, object]:
+    prior_msgs: dict = {}
+
+    async def do_send(key, value, buffer, ack: int = 0, message=None) -> tuple[str, object]:
         if value is None:
             req_lines.append(f"{key[0]};{key[1]};2;0;{key[2]};\n")
             return await env.send(gateway, env.mk_message([key[0], key[1], 2, 0, key[2], ""]), buffer)
         rec = {"key": key, "value": value, "inv": transport.tick(), "comp": None, "buffered": bool(buffer), "racing": listen_tick[0] is not None}
         sends.append(rec)
         calls_before = len(transport.calls)
-        result = await env.send(gateway, env.mk_message([key[0], key[1], 1, ack, key[2], value]), buffer)
+        if message is None:
+            message = env.mk_message([key[0], key[1], 1, ack, key[2], value])
+        rec["message"] = message
+        result = await env.send(gateway, message, buffer)
         rec["comp"] = transport.tick()
         # parked = the call returned without handing this line to the transport
         rec["parked"] = not any(line.rstrip("\n").split(";", 5)[5] == value and _key_of(line) == key for _t, line in transport.calls[calls_before:])
@@ -200,6 +207,7 @@ async def _run_schedule(case: dict, schedule: list[int]) -> tuple[Outcome | None
         for idx, sender in enumerate(case["senders"]):
             if sender[0] != "other" and sender[1] and not (len(sender) > 2 and sender[2] in ("dup", "req")):  # (buffered senders only: a written value must be attributable)
                 await do_send(NODE1_KEYS[sender[0]], f"s{idx}", True)
+                prior_msgs[idx] = sends[-1]["message"]
         await env.rx(gateway, f"1;255;3;0;{wake_type};5\n")
         if any(rec["parked"] for rec in sends) and not transport.calls:
             return Outcome(ok=True, classes=("diverged-elsewhere",)), [], {}
@@ -228,7 +236,9 @@ async def _run_schedule(case: dict, schedule: list[int]) -> tuple[Outcome | None
         if len(sender) > 2 and sender[2] == "req":
             value = None  # this task asks the node for the value instead of setting it (command 2, same key)
         # "ack": the command asks the node to echo it (ack flag set); that changes nothing about buffering
-        specs.append((key, value, buf, 1 if len(sender) > 2 and sender[2] == "ack" else 0))
+        # "reuse": the application keeps constant command objects (ON / OFF) and sends the very object an earlier wake delivered
+        reused = prior_msgs.get(idx) if len(sender) > 2 and sender[2] == "reuse" else None
+        specs.append((key, value, buf, 1 if len(sender) > 2 and sender[2] == "ack" else 0, reused))
     listener = None
     faults_left = [int(case.get("faults", 0))]
     info_faults: list[int] = []
@@ -263,11 +273,11 @@ async def _run_schedule(case: dict, schedule: list[int]) -> tuple[Outcome | None
             listen_tick[0] = transport.tick()
             listener = asyncio.ensure_future(env.rx(gateway, f"1;255;3;0;{wake_type};5\n"))
         elif kind == "start":
-            key, value, buf, ack = specs[arg]
+            key, value, buf, ack, reused = specs[arg]
             flush_blocked = any(not fut.done() and _key_of(line)[0] == 1 for line, fut in transport.blocked)
             if flush_blocked and key[0] == 1 and listener is not None and not listener.done():
                 flags["raced"] = True
-            sender_tasks[arg] = asyncio.ensure_future(do_send(key, value, buf, ack))
+            sender_tasks[arg] = asyncio.ensure_future(do_send(key, value, buf, ack, reused))
         elif kind == "fail":
             faults_left[0] -= 1
             info_faults.append(arg)
